@@ -53,6 +53,22 @@ let fnv_vals (l : coq_N list) : string =
     done) l;
   let s = Z.format "%x" !h in S.make (16 - S.length s) '0' ^ s
 
+(* generated source segments: the same function as harness/src/eng_eager.rs gen_seg (native ints) *)
+let gen_seg (kind : string) (a : int) (b : int) (c : int) (from : int) (prev : int) (n : int) : int list =
+  let x = ref ((a * 7919 + from * 104729 + 12345) land 0x7fffffff) in
+  let next () = x := (!x * 1103515245 + 12345) land 0x7fffffff; !x lsr 8 in
+  let out = ref [] and p = ref prev in
+  (match kind with
+   | "r" -> for _ = 1 to n do out := (next () mod b + c) :: !out done
+   | "n" -> for _ = 1 to n do p := !p + next () mod b; out := !p :: !out done
+   | "q" -> for i = from to from + n - 1 do
+              let t = ((max 0 (i - a)) / b) * b in
+              p := min i (max !p t); out := !p :: !out done
+   | "k" -> for _ = 1 to n do p := min (!p + next () mod b) c; out := !p :: !out done
+   | "f" -> p := c; for _ = 1 to n do out := !p :: !out; p := !p + next () mod b done
+   | _ -> failwith "segment kind");
+  L.rev !out
+
 let after_prefix p s =
   let lp = S.length p in
   if S.length s >= lp && S.sub s 0 lp = p then Some (S.sub s lp (S.length s - lp)) else None
@@ -82,6 +98,7 @@ let exec (toks : string list) : string list =
   let emit s = out := s :: !out in
   let pending_lo = ref max_int and stale_lo = ref max_int and tainted = ref false in
   let is_fpi = mname = "first_per_index" in
+  let large = get "large=" = "1" in
   let is_sem = L.mem mname semantic in
   let ref_prev : coq_N list ref = ref [] in
   let first_diff (a : coq_N list) (b : coq_N list) : int =
@@ -96,13 +113,21 @@ let exec (toks : string list) : string list =
     let k = op.[0] and rest = S.sub op 1 (S.length op - 1) in
     if !tainted then () (* the case ends at the first spec-level violation, on both sides *) else
     match k with
-    | 'A' | 'T' | 'V' ->
+    | 'A' | 'T' | 'V' | 'G' ->
       let (j, arg) = match S.index_opt rest ':' with
         | Some i -> (int_of_string (S.sub rest 0 i), S.sub rest (i + 1) (S.length rest - i - 1))
         | None -> failwith "op" in
       (match k with
-       | 'A' ->
-         let vals = if arg = "" then [] else L.map Z.of_string (S.split_on_char ',' arg) in
+       | 'A' | 'G' ->
+         let vals =
+           if k = 'G' then begin
+             match S.split_on_char ':' arg with
+             | [n; kind; a; b; c] ->
+               let from = L.length src.(j) in
+               let prev = if from = 0 then 0 else Z.to_int (L.nth src.(j) (from - 1)) in
+               L.map Z.of_int (gen_seg kind (int_of_string a) (int_of_string b) (int_of_string c) from prev (int_of_string n))
+             | _ -> failwith "G"
+           end else if arg = "" then [] else L.map Z.of_string (S.split_on_char ',' arg) in
          pending_lo := min !pending_lo (L.length src.(j));
          src.(j) <- src.(j) @ vals
        | 'T' ->
@@ -120,7 +145,7 @@ let exec (toks : string list) : string list =
       let len0 = int_of_nat (vlen !v) in
       let v0 = !v in
       let scratch_now () = if is_fpi then Ok (fpi_scratch (L.nth (fst s) 0)) else scratch_by_id id s in
-      if is_sem then begin
+      if is_sem && not large then begin
         let rn = match scratch_now () with Ok l -> l | _ -> [] in
         pending_lo := first_diff !ref_prev rn;
         ref_prev := rn
@@ -175,7 +200,7 @@ let exec (toks : string list) : string list =
       if (not valid) && not changed then stale_lo := min !stale_lo (if is_fpi then 0 else !pending_lo)
       else if (Z.leq mf (Z.of_int !stale_lo) && !clears) || !stale_lo = max_int then stale_lo := max_int;
       pending_lo := max_int;
-      if !stale_lo = max_int && res = "ok" && not !tainted then begin
+      if !stale_lo = max_int && res = "ok" && not !tainted && not large then begin
         match scratch_now () with
         | Ok sc -> if sc <> vals then begin
             tainted := true;
